@@ -210,7 +210,7 @@ def unit_charge(ctx):
         ctx.observe(round(q0, 9))
         if method == "berg-luescher" and mk in ("all", "disk"):
             ctx.check(2)
-            if abs(q0 - round(q0)) > 1e-9:
+            if C.gt(abs(q0 - round(q0)), 1e-9):
                 ctx.fail("topological_charge/berg-luescher/not-an-integer",
                          f"texture wrapping the sphere {w * p} times: charge {q0!r}", instance=inst)
             elif round(q0) != w * p:
@@ -226,7 +226,7 @@ def unit_charge(ctx):
     q1 = _charge(ctx, f2, method)
     ctx.observe(round(q1, 9))
     ctx.check()
-    if abs(q1 - sign * q0) > 1e-9 * max(1.0, abs(q0)):
+    if C.gt(abs(q1 - sign * q0), 1e-9 * max(1.0, abs(q0))):
         cls = t.split(":")[0].split("*")[0]
         what = {"lattice-rot": "rotation of all vectors", "generic-rot": "rotation of all vectors",
                 "reverse": "reversal of all vectors (sign must flip)", "length": "rescaling of the vector lengths",
@@ -287,7 +287,7 @@ def unit_coarse(ctx):
     q0 = _charge(ctx, field2d(n, cell, (0.0, 0.0), arr, mask), "berg-luescher")
     ctx.observe(round(q0, 9))
     ctx.check()
-    if abs(q0 - round(q0)) > 1e-9:
+    if C.gt(abs(q0 - round(q0)), 1e-9):
         ctx.fail("topological_charge/berg-luescher/not-an-integer/coarse-texture",
                  f"skyrmion of radius {R} cells centred {c} off the mesh centre on {n}: charge {q0!r}", instance=inst)
         return
@@ -295,13 +295,13 @@ def unit_coarse(ctx):
         ctx.note("coarse:integer-differs-from-continuum-degree(not-demanded)")
     q1 = _charge(ctx, field2d(n, cell, (0.0, 0.0), -arr, mask), "berg-luescher")
     ctx.check()
-    if abs(q1 + q0) > 1e-9:
+    if C.gt(abs(q1 + q0), 1e-9):
         ctx.fail("topological_charge/berg-luescher/not-invariant/reverse", f"coarse texture: {q0!r} -> {q1!r} on reversal",
                  instance=inst)
     M = _lattice_rotations()[5]
     q2 = _charge(ctx, field2d(n, cell, (0.0, 0.0), arr @ M.T, mask), "berg-luescher")
     ctx.check()
-    if abs(q2 - q0) > 1e-9:
+    if C.gt(abs(q2 - q0), 1e-9):
         ctx.fail("topological_charge/berg-luescher/not-invariant/lattice-rot", f"coarse texture: {q0!r} -> {q2!r} after a "
                  f"proper lattice rotation of all vectors", instance=inst)
 
@@ -414,7 +414,7 @@ def unit_library_transforms(ctx):
     ctx.check()
     if abs(q0) < 0.3:
         ctx.note("vacuity:base-charge-below-0.3")
-    if abs(q1 - sign * q0) > 1e-9 * max(1.0, abs(q0)):
+    if C.gt(abs(q1 - sign * q0), 1e-9 * max(1.0, abs(q0))):
         ctx.fail(f"topological_charge/{method}/not-invariant/library-{t.split(' ')[0].split('(')[0]}",
                  f"{t} on a mesh with bc={bc!r}, mask {mk}: charge {q0!r} -> {q1!r} (expected {sign * q0!r})", instance=inst)
 
@@ -434,7 +434,7 @@ def unit_uniform(ctx):
     q = _charge(ctx, f, method)
     ctx.observe(q)
     ctx.check()
-    if abs(q) > 1e-12:
+    if C.gt(abs(q), 1e-12):
         ctx.fail(f"topological_charge/{method}/uniform-field-has-charge", f"uniform {v}: charge {q!r}")
 
 
@@ -595,7 +595,7 @@ def unit_angles(ctx):
     if not (np.all(g >= 0) and np.all(g <= top * (1 + 1e-15))):
         ctx.fail("neighbouring_cell_angle/out-of-range", f"angles outside [0, {top}]: min {g.min()!r} max {g.max()!r}",
                  instance=inst)
-    if np.abs(np.cos(grad) - dot).max() > 1e-12 or np.abs(grad - ref).max() > 1e-7:
+    if C.gt(np.abs(np.cos(grad) - dot).max(), 1e-12) or C.gt(np.abs(grad - ref).max(), 1e-7):
         wch = np.unravel_index(int(np.argmax(np.abs(grad - ref))), ref.shape)
         ctx.fail("neighbouring_cell_angle/not-angle-between-unit-vectors",
                  f"pair at {tuple(int(x) for x in wch)} along axis {d}: {a_[wch].tolist()} / {b_[wch].tolist()}: got "
@@ -656,7 +656,7 @@ def unit_demag(ctx):
     delta = np.zeros(nk)
     delta[tuple(k - 1 for k in n)] = -1.0
     ctx.check(2)
-    if dev > 1e-8 or np.abs(rtr - delta).max() > 1e-8:
+    if C.gt(dev, 1e-8) or C.gt(np.abs(rtr - delta).max(), 1e-8):
         w = np.unravel_index(int(np.argmax(np.abs(rtr - delta))), nk)
         ctx.fail(f"{impl}/trace-not-minus-one/{cls}",
                  f"|trace| in [{np.abs(tr).min():.6g}, {np.abs(tr).max():.6g}] over the k-cells (must be 1); trace of the "
@@ -667,7 +667,7 @@ def unit_demag(ctx):
         ctx.step(1)
         T1 = np.asarray(dft.demag_tensor(mesh).array)
         ctx.check()
-        if T1.shape != tarr.shape or np.abs(T1 - tarr).max() > 1e-9 * max(1.0, np.abs(T1).max()):
+        if T1.shape != tarr.shape or C.gt(np.abs(T1 - tarr).max(), 1e-9 * max(1.0, np.abs(T1).max())):
             ctx.fail("demag_tensor/implementations-disagree", f"max difference {np.abs(T1 - tarr).max():.3g}")
     # (c) mean demagnetising field of the uniformly magnetised cuboid
     edges = [k * c for k, c in zip(n, cell)]
@@ -686,12 +686,12 @@ def unit_demag(ctx):
             means.append(float(hm[a]))
         ctx.observe(np.round(np.array(means) / M, 9))
         ctx.check()
-        if abs(sum(means) + M) > 1e-8 * M:
+        if C.gt(abs(sum(means) + M), 1e-8 * M):
             ctx.fail(f"demag_field/sum-rule/{cls}", f"|M|={M}: mean H_x/M, H_y/M, H_z/M = {[x / M for x in means]} sum to "
                      f"{sum(means) / M!r}, expected -1")
         if cube:
             ctx.check()
-            if max(abs(x / M + 1.0 / 3.0) for x in means) > 1e-8:
+            if C.gt(np.array([abs(x / M + 1.0 / 3.0) for x in means]), 1e-8):
                 ctx.fail(f"demag_field/cube-not-one-third/{cls}", f"cube {edges}, |M|={M}: mean H_a/M = "
                          f"{[x / M for x in means]}, expected -1/3 each")
 
